@@ -27,6 +27,19 @@ struct Key {{
     b: i32,
 }}
 
+#[derive(Debug)]
+struct Sample {{
+    id: u32,
+    enabled: bool,
+    ratio: f64,
+    unit: (),
+}}
+#[derive(Debug)]
+enum Shape {{
+    Circle {{ r: f32 }},
+    Flag(bool),
+}}
+
 #[inline(never)]
 fn stop_here(x: u64) -> u64 {{
     x + 1
@@ -133,6 +146,14 @@ fn main() {{
     let arr = [10u16, 20, 30, 40];
     let sl: &[u16] = &arr[1..3];
     let tup = (s_ascii.clone(), vec![1u8, 2]);
+    let sample = Sample {{ id: 42, enabled: true, ratio: 1.625, unit: () }};
+    let shape_c = Shape::Circle {{ r: 2.25 }};
+    let shape_f = Shape::Flag(false);
+    let v_bool = vec![true, false, true];
+    let v_f64 = vec![1.5f64, -0.25, 1e-7];
+    let opt_b: Option<bool> = Some(true);
+    let opt_f: Option<f32> = Some(0.1);
+    let dur = std::time::Duration::from_millis(1500);
     TL_A.with(|c| c.set(78));
     let g = unsafe {{ std::ptr::read_volatile(&raw const G_MUT) }} + G_U32 as i64;
     let r = stop_here(g as u64);
@@ -165,6 +186,14 @@ fn main() {{
     println!("DBG arr={{:?}}", arr);
     println!("DBG sl={{:?}}", sl);
     println!("DBG tup={{:?}}", tup);
+    println!("DBG sample={{:?}}", sample);
+    println!("DBG shape_c={{:?}}", shape_c);
+    println!("DBG shape_f={{:?}}", shape_f);
+    println!("DBG v_bool={{:?}}", v_bool);
+    println!("DBG v_f64={{:?}}", v_f64);
+    println!("DBG opt_b={{:?}}", opt_b);
+    println!("DBG opt_f={{:?}}", opt_f);
+    println!("DBG dur={{:?}}", dur);
     println!("DBG n={{:?}}", n);
     println!("DBG g={{:?}}", g);
     println!("{{r}} {{ka}} {{}} {{}} {{}} {{}} {{}} {{}} {{}} {{}} {{}} {{}} {{}} {{}} {{}} {{}} {{}} {{}} {{}} {{}} {{:?}} {{:?}} {{:?}} {{:?}} {{:?}} {{}}", s_ascii, s_utf8, s_empty.len(), v_i32.len(), v_empty.len(), v_cap.len(), vv.len(), v_str.len(), vd.len(), hm.len(), hs.len(), bm.len(), bs.len(), bx.0, rc2, arc, cell.get(), bm_tup.len() + hm_tup.len() + hm_key.len() + hm_del.len() + hs_del.len() + bm_del.len() + vd_del.len() + bm_sizes.len() + hs_sizes.len(), rcell, opt_s, opt_none, sl, tup, n);
@@ -174,7 +203,7 @@ fn main() {{
 }
 
 pub const ARGD_NAMES: [&str; 8] = ["a_vec", "a_str", "a_opt", "a_tup", "a_ref", "a_map", "a_u", "a_f"];
-pub const VARD_NAMES: [&str; 30] = ["s_ascii", "s_utf8", "s_empty", "v_i32", "v_empty", "v_cap", "vv", "v_str", "vd", "vd_del", "hm", "hm_del", "hs_del", "hm_key", "hs", "bm", "bm_del", "bs", "bx", "rc", "arc", "cell", "rcell", "opt_s", "opt_none", "arr", "sl", "tup", "n", "g"];
+pub const VARD_NAMES: [&str; 38] = ["sample", "shape_c", "shape_f", "v_bool", "v_f64", "opt_b", "opt_f", "dur", "s_ascii", "s_utf8", "s_empty", "v_i32", "v_empty", "v_cap", "vv", "v_str", "vd", "vd_del", "hm", "hm_del", "hs_del", "hm_key", "hs", "bm", "bm_del", "bs", "bx", "rc", "arc", "cell", "rcell", "opt_s", "opt_none", "arr", "sl", "tup", "n", "g"];
 
 /// Build (if needed) the program for one size parameter: (exe, source file name, line of the stop).
 pub fn ensure_built(n: u64, wrap: u64) -> Result<(String, String, u64), String> {
@@ -409,7 +438,7 @@ pub fn part_std(tier: Tier, expressions: bool) -> Part {
             json!({"op": "start"}),
             json!({"op": "values", "names": [], "derefs": []}),
             json!({"op": "dqe", "exprs": exprs}),
-            json!({"op": "vard", "exprs": VARD_NAMES}),
+            json!({"op": "vard", "exprs": VARD_NAMES.to_vec()}),
             json!({"op": "continue"}),
             json!({"op": "values", "names": [], "derefs": []}),
             json!({"op": "dqe", "exprs": arg_exprs, "args": true}),
@@ -501,7 +530,7 @@ fn short(v: &Value) -> String {
 /// the program itself prints for the same value with `{:?}` a moment later.
 pub fn part_vard(tier: Tier) -> Part {
     let mut part = Part::new("c16_vard");
-    part.rule = "std-linked generated program that prints every one of its 30 values with {:?} after the stop: at the stop `vard <name>` (call_debug_fmt, the program's own Debug code run inside the stopped thread) is evaluated for each, and at a second stop inside a callee `argd <name>` for each of its 8 parameters; every text returned must equal the line the program prints itself afterwards, the registers are unchanged by the calls, and the program finishes with its normal output. An error answer (no callable instantiation found) is accepted, a different text is not".into();
+    part.rule = "std-linked generated program that prints every one of its 38 values (among them structs, enums, vectors and options holding bool, floats and unit, a Duration) with {:?} after the stop: at the stop `vard <name>` (call_debug_fmt, the program's own Debug code run inside the stopped thread) is evaluated for each, and at a second stop inside a callee `argd <name>` for each of its 8 parameters; every text returned must equal the line the program prints itself afterwards, the registers are unchanged by the calls, and the program finishes with its normal output. An error answer (no callable instantiation found) is accepted, a different text is not".into();
     let configs: Vec<(u64, u64, &str)> = if tier == Tier::Quick { vec![(3, 5, "1.89")] } else { vec![(1, 0, "1.89"), (3, 5, "1.89"), (12, 7, "1.89"), (40, 13, "1.89"), (12, 7, "stable")] };
     for &(n, wrap, tc) in &configs {
         let (exe, file, line) = match ensure_built_tc(n, wrap, tc) {
@@ -516,7 +545,7 @@ pub fn part_vard(tier: Tier) -> Part {
             json!({"op": "break_line", "file": file, "line": line}),
             json!({"op": "break_line", "file": file, "line": arg_line}),
             json!({"op": "start"}),
-            json!({"op": "vard", "exprs": VARD_NAMES}),
+            json!({"op": "vard", "exprs": VARD_NAMES.to_vec()}),
             json!({"op": "continue"}),
             json!({"op": "vard", "exprs": ARGD_NAMES, "args": true}),
             json!({"op": "continue"}),
@@ -553,6 +582,9 @@ pub fn part_vard(tier: Tier) -> Part {
                 part.violate("C16:vard:panic", format!("[n={n} {tc}] vard {name} panicked"), replay.clone());
             } else {
                 errs += 1;
+                if std::env::var("BSMC_DEBUG").is_ok() {
+                    eprintln!("vard {name}: {r}");
+                }
             }
         }
         // the maps print in hash order, which is per process: compare the rest of the output only
